@@ -95,10 +95,17 @@ def main():
             na.append({"property_id": pid, "reason": NOT_APPLICABLE[pid]})
         else:
             na.append({"property_id": pid, "reason": "not claimed at this commit: the check for this property is designed (DESIGN.md §4) but not yet built/validated; nothing is asserted about it"})
+    def served(ids):
+        return [c for c in claimed if c in ids]
     engines = [
-        {"name": "simrt+simgen", "path": "overlay/internal/verif/simrt, simgen/", "serves_properties": [c for c in claimed], "kind_free_text": "deterministic scheduler/clock/channel/IO seams and the source rewriter that routes fs_db through them (scratch copy only)"},
-        {"name": "poolsim/asyncsim", "path": "overlay/internal/verif/harness/c16_pool.go, c12_async.go", "serves_properties": [c for c in claimed if c in ("C12", "C16")], "kind_free_text": "single-package simulations"},
-        {"name": "dbsim", "path": "overlay/internal/verif/harness", "serves_properties": [c for c in claimed if c not in ("C16",)], "kind_free_text": "whole inline database inside the simulator with reference model and history checkers"},
+        {"name": "simrt+simgen", "path": "overlay/internal/verif/simrt, simgen/", "serves_properties": list(claimed), "kind_free_text": "deterministic scheduler, simulated clock, sync/atomic/channel/context shims, seeded map iteration, and the source rewriter that routes a scratch copy of fs_db (and of its ordered-map dependency) through them"},
+        {"name": "poolsim / asyncsim", "path": "overlay/internal/verif/harness/c16_pool.go, c12_async.go", "serves_properties": served(["C12", "C15", "C16"]), "kind_free_text": "the real worker pool / read-writer alone under the scheduler"},
+        {"name": "dbsim", "path": "overlay/internal/verif/harness (world.go, seq.go, conc.go, ops.go, refmodel)", "serves_properties": served(["C01","C02","C03","C05","C06","C07","C08","C09","C10","C11","C12","C13","C14","C15","C17","C19"]), "kind_free_text": "whole inline database (real Badger, real files, real pool and GC timer) inside the simulator; sequential histories against the reference model, concurrent histories judged by interval rules and porcupine"},
+        {"name": "simos / simdisk / simbadger", "path": "overlay/internal/verif/{simos,simdisk,simbadger}", "serves_properties": served(["C03","C04","C10","C12","C01"]), "kind_free_text": "fault seams: root capacities, ENOSPC with partial writes, failing Badger updates, persistent-mutation counter and kill point"},
+        {"name": "simgrpc", "path": "overlay/internal/verif/harness/simgrpc.go", "serves_properties": served(["C10","C11","C13"]), "kind_free_text": "in-process grpc.ClientConnInterface/ServiceRegistrar transport with link cuts; real generated stubs, delivery service, adapters, interceptors"},
+        {"name": "grpcreal", "path": "overlay/internal/verif/harness/c11.go (plain-flavour binary)", "serves_properties": served(["C11"]), "kind_free_text": "fidelity tier: app.New/Run on a loopback port and external.Open, unmodified sources, sequential fault-free histories"},
+        {"name": "crashsim", "path": "overlay/internal/verif/harness/c04.go, c19.go", "serves_properties": served(["C04","C05","C19"]), "kind_free_text": "child processes that SIGKILL themselves at the n-th persistent mutation, verifier processes, process-boundary segments, pinned-revision fixture"},
+        {"name": "racesim", "path": "overlay/internal/verif/harness/c15.go, simrt/handoff_pipe.go", "serves_properties": served(["C15"]), "kind_free_text": "the same simulator built with -race and a pipe hand-off that the race detector cannot see"},
     ]
     m = {
         "version": 1,
